@@ -1178,6 +1178,7 @@ fn run_context_layer(rec: &mut Rec, scope: Scope) {
 fn run_c01(rec: &mut Rec) {
     run_items(rec, Scope::Effect);
     run_context_layer(rec, Scope::Effect);
+    run_target_coincidences(rec, Scope::Effect);
     // layer 5: through the emulator's own dispatch, across restarts of the translation area
     {
         let step = rec.ctx.tier.pick(0x40000usize, 0x8000);
@@ -1199,6 +1200,107 @@ fn run_c01(rec: &mut Rec) {
     if rec.ctx.shard == 2 || rec.ctx.nshards < 3 {
         run_stepped_blocks(rec, rec.ctx.tier.pick(3000u32, 200_000));
     }
+}
+
+/// Layer 7: control transfers whose target coincides with something else about the block —
+/// the fall-through address (JP cc to PC+3, JR cc +0, CALL cc to the next instruction, RET to
+/// the byte after itself, RST from the byte before its vector, JP HL to the next address),
+/// the instruction's own address or its second byte, the first byte of the block, and the
+/// bank boundary; taken and not taken under all 16 flag states, entered with 0 and 5 pending
+/// cycles, placed in the fixed bank, so that the fall-through address is 0x4000, and in the
+/// switchable bank. Random targets meet these with probability 2^-16 each.
+fn run_target_coincidences(rec: &mut Rec, scope: Scope) {
+    let mut p = JPair::new();
+    let mut n = 0u64;
+    let abs_ops = [0xc3u8, 0xc2, 0xca, 0xd2, 0xda, 0xcd, 0xc4, 0xcc, 0xd4, 0xdc];
+    let rel_ops = [0x18u8, 0x20, 0x28, 0x30, 0x38];
+    let ret_ops = [0xc9u8, 0xc0, 0xc8, 0xd0, 0xd8, 0xd9];
+    let mut cases: Vec<BlockCase> = Vec::new();
+    for nops in 0..2u16 {
+        for place in 0..3u8 {
+            let mk = |len: u16| -> (u16, u16, u16) {
+                let pc0 = match place {
+                    0 => L1_PC,
+                    1 => 0x4000 - len - nops,
+                    _ => 0x4000,
+                };
+                (pc0, pc0 + nops, pc0 + nops + len)
+            };
+            let targets = |pc0: u16, ta: u16, next: u16| -> Vec<u16> {
+                vec![next, ta, ta.wrapping_add(1), pc0, next.wrapping_add(1), next.wrapping_sub(1), 0x3fff, 0x4000, 0x7fff, 0x0000]
+            };
+            for &op in &abs_ops {
+                let (pc0, ta, next) = mk(3);
+                for t in targets(pc0, ta, next) {
+                    let mut code = vec![0u8; nops as usize];
+                    code.extend_from_slice(&[op, t as u8, (t >> 8) as u8]);
+                    cases.push(BlockCase { pc: pc0, code, regs: base_regs(), cells: vec![] });
+                }
+            }
+            for &op in &rel_ops {
+                let (pc0, ta, next) = mk(2);
+                for t in targets(pc0, ta, next) {
+                    let d = t.wrapping_sub(next) as i16;
+                    if d < -128 || d > 127 {
+                        continue;
+                    }
+                    let mut code = vec![0u8; nops as usize];
+                    code.extend_from_slice(&[op, d as i8 as u8]);
+                    cases.push(BlockCase { pc: pc0, code, regs: base_regs(), cells: vec![] });
+                }
+            }
+            for &op in &ret_ops {
+                let (pc0, ta, next) = mk(1);
+                for t in targets(pc0, ta, next) {
+                    let mut code = vec![0u8; nops as usize];
+                    code.push(op);
+                    let cells = vec![(0xdff0u16, t as u8), (0xdff1u16, (t >> 8) as u8)];
+                    cases.push(BlockCase { pc: pc0, code, regs: base_regs(), cells });
+                }
+            }
+            {
+                let (pc0, ta, next) = mk(1);
+                for t in targets(pc0, ta, next) {
+                    let mut code = vec![0u8; nops as usize];
+                    code.push(0xe9);
+                    let mut regs = base_regs();
+                    regs.hl = t as u32;
+                    cases.push(BlockCase { pc: pc0, code, regs, cells: vec![] });
+                }
+            }
+        }
+        // RST from the byte before its vector (the target is the fall-through address) and
+        // from the vector itself (the target is the instruction)
+        for v in 1..8u16 {
+            for at in [v * 8 - 1, v * 8] {
+                if at < nops {
+                    continue;
+                }
+                let mut code = vec![0u8; nops as usize];
+                code.push(0xc7 | (v as u8) << 3);
+                cases.push(BlockCase { pc: at - nops, code, regs: base_regs(), cells: vec![] });
+            }
+        }
+    }
+    for (k, base) in cases.iter().enumerate() {
+        if !enum_mine(&rec.ctx, k) || rec.too_many() {
+            continue;
+        }
+        for f in LEGAL_F {
+            for cyc in [0u32, 5] {
+                let mut c = base.clone();
+                c.regs.af = 0x4200 | f as u32;
+                c.regs.pc = c.pc as u32;
+                c.regs.cycles = cyc;
+                one_block(rec, &mut p, &c, scope);
+                n += 1;
+            }
+        }
+        if k % 37 == 0 {
+            rec.sample(|| block_json(base));
+        }
+    }
+    rec.class("l7-target-coincidence", n);
 }
 
 /// Layer 6: generated blocks through the emulator's own step (Core::run_code_block of the jit
@@ -1429,6 +1531,7 @@ fn run_c02(rec: &mut Rec) {
     for fp in fps {
         rec.nontrivial(fp);
     }
+    run_target_coincidences(rec, Scope::Cycles);
     if rec.ctx.shard == 0 {
         let cases = rec.ctx.tier.pick(40_000u32, 3_000_000);
         run_generated_blocks(rec, Scope::Cycles, cases);
